@@ -13,30 +13,34 @@ TECHNIQUE = ("exhaustive abstract decision table of the integer rounding helper 
              "tie class) against the mode definitions + abstract interpretation of quantize/round")
 
 
+def _callees(prog, fi):
+    """Repo functions called by name from `fi` (module-level functions, resolved through imports)."""
+    out = []
+    for n in ast.walk(fi.node):
+        if isinstance(n, ast.Call) and isinstance(n.func, ast.Name):
+            r = prog.resolve_global(fi.module, n.func.id)
+            if r and r[0] == "func":
+                out.append((n, r[1]))
+    return out
+
+
 def find_rounding_helper(prog):
-    """The function that receives a Fraction's numerator and denominator from the fraction branch."""
-    qf = None
+    """The function that receives a Fraction's numerator and denominator from the fraction branch of
+    Quantity.quantize, wherever in the package it lives (found through the call structure)."""
     quant = prog.method("Quantity", "quantize")
-    cands = []
-    for n in ast.walk(quant.node):
-        if isinstance(n, ast.Call) and isinstance(n.func, ast.Name) and n.func.id in prog.modules["quantity"].functions:
-            cands.append(prog.modules["quantity"].functions[n.func.id])
     seen = set()
-    work = list(cands)
+    work = [quant]
     while work:
         f = work.pop()
         if f.qualname in seen:
             continue
         seen.add(f.qualname)
-        for n in ast.walk(f.node):
-            if isinstance(n, ast.Call):
-                srcs = [src_of(a) for a in n.args]
-                if any(s.endswith(".numerator") for s in srcs) and any(s.endswith(".denominator") for s in srcs) \
-                        and isinstance(n.func, ast.Name) and n.func.id in prog.modules["quantity"].functions:
-                    return prog.modules["quantity"].functions[n.func.id], f
-                if isinstance(n.func, ast.Name) and n.func.id in prog.modules["quantity"].functions:
-                    work.append(prog.modules["quantity"].functions[n.func.id])
-        if any(isinstance(n, ast.Call) and src_of(n.func) == "divmod" for n in ast.walk(f.node)):
+        for call, callee in _callees(prog, f):
+            srcs = [src_of(a) for a in call.args]
+            if any(s_.endswith(".numerator") for s_ in srcs) and any(s_.endswith(".denominator") for s_ in srcs):
+                return callee, f
+            work.append(callee)
+        if f is not quant and any(isinstance(n, ast.Call) and src_of(n.func) == "divmod" for n in ast.walk(f.node)):
             return f, f
     raise AnalysisError("anchor vanished: integer rounding helper of the fraction path of Quantity.quantize")
 
@@ -63,7 +67,7 @@ def run(prog, tier) -> Result:
         res.notes.append(f"dependency defines {len(modes)} rounding modes: {modes}")
     cells = 0
     bad_cells = {}
-    for mode, how, qc, cmp2, out in decision_table(helper, modes):
+    for mode, how, qc, cmp2, out in decision_table(helper, modes, prog):
         cells += 1
         want = reference_add_one(mode, qc, cmp2)
         ok = out[0] == "return" and isinstance(out[1], AQ) and out[1].c == want
@@ -87,11 +91,11 @@ def run(prog, tier) -> Result:
                                             "add_one": reference_add_one(mode, ("<=-2", 3), 0)}},
                    evaluations=0)
     # R13.2: exact quotient, unknown mode
-    out = TableEval(helper, "ROUND_HALF_UP", None, ("1", 1), 0, rem_zero=True).run()
+    out = TableEval(helper, "ROUND_HALF_UP", None, ("1", 1), 0, rem_zero=True, prog=prog).run()
     res.ob("R13.2", helper.qualname, "exact quotient returned unchanged",
            out[0] == "return" and isinstance(out[1], AQ) and out[1].c == 0, repr(out),
            sig="exact quotient altered")
-    out = TableEval(helper, "ROUND_UNKNOWN_MODE", None, ("1", 1), 0).run()
+    out = TableEval(helper, "ROUND_UNKNOWN_MODE", None, ("1", 1), 0, prog=prog).run()
     res.ob("R13.2", helper.qualname, "unknown mode rejected", out == ("raise", "ValueError"), repr(out),
            sig="unknown rounding mode accepted")
     res.ob("R13.2", "decimalfp.ROUNDING", "eight modes", len(modes) == 8, str(modes), sig="mode set changed",
